@@ -166,11 +166,14 @@ def run_impl(inp, extra_kwargs=None, predictor=None):
             k += 1
         return levels
     if entry == "link_df_iter":
+        given = []
+
         def dfs():
             for k, pts in enumerate(frames):
                 a = np.array(pts, dtype=float).reshape(len(pts), dim)
                 df = pd.DataFrame(a, columns=cols)
                 df["frame"] = t0 + k * ts
+                given.append((df, df.copy(deep=True)))
                 yield df
         if inp.get("null_predict"):
             gen = tp.predict.NullPredict().link_df_iter(dfs(), sr, pos_columns=cols, **kw)
@@ -188,6 +191,12 @@ def run_impl(inp, extra_kwargs=None, predictor=None):
             levels.append((t0 + k * ts, [[int(round(v)) for v in row] for row in df[cols].values],
                            [int(i) for i in df["particle"].values]))
             k += 1
+        # purity: the caller's per-frame tables must be left as they were
+        for mine, before in given:
+            if list(mine.columns) != list(before.columns) or not mine.equals(before):
+                inp.setdefault("_impure", []).append("link_df_iter modified a caller's frame table "
+                                                     "(columns now %s)" % list(mine.columns))
+                break
         return levels
     if entry == "link":
         rows = []
@@ -349,6 +358,10 @@ def run_movie_case(ctx, inp, want=("valid", "optimal"), prop="C01", maxsize=30):
     if levels == "oversize":
         res.stat("link_oversize")     # `link` raised: no partial output to judge
         return res
+    if inp.get("_impure"):
+        res.violation("property-violation", inp["_impure"][0],
+                      signature=dict(stream="movie", what="caller-table-modified"))
+        inp.pop("_impure")
     line = lrun_line(inp, levels, maxsize=maxsize, drop=(inp.get("strategy") == "drop"),
                      opt=("optimal" in want))
     m = common.kv(ctx.ask(line))
